@@ -7,7 +7,6 @@ import (
 	"strings"
 
 	"github.com/AdguardTeam/AdGuardHome/internal/filtering"
-	"github.com/AdguardTeam/golibs/stringutil"
 )
 
 type criterionType int
@@ -79,11 +78,21 @@ func ctDomainOrClientCaseNonStrict(
 	host string,
 	ip string,
 ) (ok bool) {
-	return stringutil.ContainsFold(clientID, term) ||
-		stringutil.ContainsFold(host, term) ||
-		(asciiTerm != "" && stringutil.ContainsFold(host, asciiTerm)) ||
-		stringutil.ContainsFold(ip, term) ||
-		stringutil.ContainsFold(name, term)
+	return containsFold(clientID, term) ||
+		containsFold(host, term) ||
+		(asciiTerm != "" && containsFold(host, asciiTerm)) ||
+		containsFold(ip, term) ||
+		containsFold(name, term)
+}
+
+// containsFold reports whether s contains substr regardless of the letter
+// case.
+//
+// NOTE:  Don't use stringutil.ContainsFold of module golibs here, since it only finds the
+// upper-case counterparts of 'k' and 's' at the beginning of s, because of the
+// additional members of their folding orbits.
+func containsFold(s, substr string) (ok bool) {
+	return strings.Contains(strings.ToLower(s), strings.ToLower(substr))
 }
 
 // quickMatch quickly checks if the line matches the given search criterion.
